@@ -30,8 +30,10 @@ CLAIMED["C11"] = dict(
          "round trip of the adaptive-width block codec (encodeUint64List output decodes, by decodeUint64List's contract, to the same "
          "sequence; plain compressed blocks likewise).",
     note=COMMON_NOTE + "Assumed: zstd.Compress/Decompress, the bit-packing reader/writer over io interfaces, pool discipline (a pooled "
-         "object is unaliased), objects smaller than 2^60 elements. Not yet under contract: float decimal codec, vararray, "
-         "EncodeBytesBlock/BytesBlockDecoder, list-level varint value round trip, Int64ListToBytes mode selection. BytesToInt64List is "
+         "object is unaliased), objects smaller than 2^60 elements; the float decimal decoder's arithmetic (uninterpreted: the float "
+         "codec is proved 'lossless or refused' structurally). Also proved: the escaped array-entry decoder (vararray) is safe, makes "
+         "progress and writes nothing when there is no escape byte. Not under contract: EncodeBytesBlock/BytesBlockDecoder, "
+         "list-level varint value round trip, Int64ListToBytes mode selection, MarshalVarArray round trip. BytesToInt64List is "
          "verified under the precondition itemsCount>=1 (>=2 for delta-of-delta) which its callers take from block metadata.",
     technique="contract-based deductive verification: weakest-precondition VCs from the typed Go AST (govc), loop invariants, "
               "call-by-contract; obligations discharged by z3/cvc5; counterexamples replayed via go test -overlay",
@@ -50,7 +52,7 @@ CLAIMED["C05"] = dict(
          "while the table's read lock is held (ghost lock flag). The same contracts are proved for the stream engine and for the "
          "trace engine (whose snapshot also implements the generic Snapshot interface through IncRef/DecRef).",
     note=COMMON_NOTE + "Assumed: the Snapshot.IncRef/DecRef and Manager.ReplaceSnapshot interface contracts as documented in the "
-         "package; partWrapper.decRef (goroutine). Sequential semantics (no interleavings). Narrow claim: stream/trace/sidx snapshot "
+         "package; partWrapper.decRef (goroutine). Sequential semantics (no interleavings). Narrow claim: sidx snapshot "
          "reference counting, snapshot.merge/remove/copyAllTo (maps not modelled), the introducer loops and the "
          "publication fence are not decided (channels, goroutines and proto-typed packages); Transaction (slices of closures) is not "
          "yet under contract.",
